@@ -2,7 +2,9 @@
 import json
 import os
 import re
+import sys
 import framework as fw
+sys.path.insert(0, os.path.dirname(os.path.abspath(__file__)))
 from framework import REPO
 
 TIE = ["Nsq.Tie.ToolsToFile"]
@@ -56,7 +58,7 @@ def parse_strace(path, root):
         if mo:
             fds.pop(int(mo.group(1)), None)
             continue
-        mo = re.match(r'write\((\d+), "([^"]*)"', l)
+        mo = re.match(r'write\((\d+),\s+"([^"]*)"', l)
         if mo:
             fd, s = int(mo.group(1)), mo.group(2)
             if fd in fds:
@@ -172,7 +174,7 @@ def run(ctx):
                     m = re.match(r"ORACLE-FAIL case=(\d+) (.*)", l)
                     c = int(m.group(1))
                     script = open(os.path.join(out, "case%d" % c, "script.json")).read()
-                    key = "tofile-oracle:" + re.sub(r"\d+", "N", m.group(2))[:60]
+                    key = "tofile-oracle:" + "-".join(re.sub(r"[^a-z ]", "", re.sub(r"\S*/\S*", "", m.group(2).lower())).split()[:7])
                     ctx.violation(key, "nsq_to_file: " + m.group(2), script)
             # 4: correspondence
             diffs = ctx.diff_lines(impl, model, "tofile:" + label)
@@ -206,6 +208,10 @@ def run(ctx):
             ctx.corr.setdefault("syscall_leg", []).append({"label": label, "traces": nst, "fins": nfin})
             if label == "gen" and nst and nfin == 0:
                 corr_broken.append("syscall leg saw no FIN marker")
+    # end-to-end leg (thorough): real binaries, real nsqd, signals at random instants, strace
+    if ctx.thorough() and not ctx.replay_in:
+        import c19_e2e
+        corr_broken += c19_e2e.run(ctx, rounds=10)
     if (ctx.broken_ties or corr_broken) and not ctx.violations:
         ctx.broken_without_input(ctx.broken_ties + corr_broken,
                                  "search: %d generated events through the real router with the readable-at-FIN, "
